@@ -114,4 +114,83 @@ def resolveN : Nat → GEnv → Expr → ElabSt → Option (RExpr × ElabSt)
 /-- the resolved body of a command (scope empty at its start) under the global patterns `G` -/
 def resolveBody (G : GEnv) (e : Expr) : Option RExpr := (resolveN (G.length + 1) G e {}).map (·.1)
 
+/-! ## semantics of resolved expressions -/
+
+/-- id ↦ (name, body, predicate) for every subroutine node -/
+abbrev Procs := List (Nat × String × RExpr × Stmt)
+
+def procsOf : RExpr → Procs
+  | .empty => []
+  | .seq a b => procsOf a ++ procsOf b
+  | .atom _ => []
+  | .backref _ => []
+  | .call _ _ => []
+  | .star _ _ body => procsOf body
+  | .branch l r => procsOf l ++ procsOf r
+  | .dec _ body => procsOf body
+  | .sub id x body pred => (id, x, body, pred) :: procsOf body
+  | .inl _ _ => []
+
+def Procs.find (ρ : Procs) (id : Nat) : Option (String × RExpr × Stmt) := (List.find? (·.1 == id) ρ).map (·.2)
+
+/-- does the predicate of a pattern hold for the text matched so far? `none` = it does not evaluate
+(panics or runs out of fuel) -/
+def predHolds (pf : Nat) (pred : Stmt) (d : Data) : Option Bool :=
+  if pred == .skip then some true else
+  match runProcess pf pred [("match", .str d.cur), ("matchLength", .num d.cur.length)] with
+  | .ok (some v) => some v.getBoolean
+  | _ => none
+
+/-- continue with `ks` if the predicate holds, backtrack if it does not -/
+def withPred (pf : Nat) (pred : Stmt) (ks : SK) : SK := fun d fk =>
+  match predHolds pf pred d with
+  | some true => ks d fk
+  | some false => fk ()
+  | none => none
+
+/-- the semantics, given how the body of a *called* subroutine is run -/
+def mrWith (text : Bytes) (lf pf : Nat) (ρ : Procs)
+    (callK : RExpr → Data → SK → FK → Option SRes) : RExpr → Data → SK → FK → Option SRes
+  | .empty, d, ks, fk => ks d fk
+  | .seq a b, d, ks, fk => mrWith text lf pf ρ callK a d (fun d' fk' => mrWith text lf pf ρ callK b d' ks fk') fk
+  | .atom a, d, ks, fk =>
+    match atomD text a d with
+    | some d' => ks d' fk
+    | none => fk ()
+  | .backref x, d, ks, fk =>
+    match backrefD text x d with
+    | some d' => ks d' fk
+    | none => fk ()
+  | .call _ id, d, ks, fk =>
+    -- a call matches the body of its target at the point of reference, then requires its predicate
+    match ρ.find id with
+    | some (_, body, pred) => callK body d (withPred pf pred ks) fk
+    | none => none
+  | .star mx fewest body, d, ks, fk => loopV (mrWith text lf pf ρ callK body) mx fewest lf 0 d ks fk
+  | .branch l r, d, ks, fk => mrWith text lf pf ρ callK l d ks (fun _ => mrWith text lf pf ρ callK r d ks fk)
+  | .dec x body, d, ks, fk =>
+    mrWith text lf pf ρ callK body d (fun d' fk' => ks (bindD d' x (d'.cur.drop d.cur.length)) fk') fk
+  | .sub _ _ body pred, d, ks, fk =>
+    -- a subroutine node matches its body where it stands, then requires its predicate
+    mrWith text lf pf ρ callK body d (withPred pf pred ks) fk
+  | .inl false items, d, ks, fk => inAlts text items d ks fk
+  | .inl true items, d, ks, fk =>
+    if items.any (fun a => (atomD text a d).isSome) then fk ()
+    else if (consumeD text d (listMaxSize items).toNat).pos == d.pos then fk ()
+    else ks (consumeD text d (listMaxSize items).toNat) fk
+
+/-- calls nested at most `cf` deep -/
+def mrN (text : Bytes) (lf pf : Nat) (ρ : Procs) : Nat → RExpr → Data → SK → FK → Option SRes
+  | 0 => mrWith text lf pf ρ (fun _ _ _ _ => none)
+  | cf + 1 => mrWith text lf pf ρ (mrN text lf pf ρ cf)
+
+def attemptR (text : Bytes) (lf pf cf : Nat) (e : RExpr) (pos line col : Nat) : Option SRes :=
+  mrN text lf pf (procsOf e) cf e ⟨pos, line, col, [], .nil⟩ (fun d _ => some (.matched d)) (fun _ => some .fail)
+
+/-- all matches of `find all` for a resolved body; `none` = some attempt did not answer within the
+call-depth bound `cf` (or a predicate did not evaluate) -/
+def findAllR (text : Bytes) (pf cf : Nat) (e : RExpr) : Option (List Match) :=
+  if text.length = 0 then some []
+  else scanAllWith text (attemptR text (text.length + 2) pf cf e) (text.length + 1) [] 0 1 1
+
 end Vore.Spec
